@@ -2383,16 +2383,28 @@ pub fn floor() -> impl Function {
     PartitionnedMonotonic::univariate(data_type::Float::default(), |a| a.floor())
 }
 
+/// Apply `round_fn` (round or trunc) to `a` at the decimal place `b`.
+/// When 10^b or a * 10^b is not a finite number `a` has no digit at that place: it is unchanged
+/// for a place beyond its precision and 0 for a place above its magnitude.
+fn at_decimal_place(a: f64, b: i64, round_fn: fn(f64) -> f64) -> f64 {
+    let multiplier = 10.0_f64.powi(b.clamp(i32::MIN as i64, i32::MAX as i64) as i32);
+    let scaled = a * multiplier;
+    if multiplier == 0. {
+        0.
+    } else if !multiplier.is_finite() || !scaled.is_finite() {
+        a
+    } else {
+        round_fn(scaled) / multiplier
+    }
+}
+
 // Round function
 // monotonic for the 1st variable but not for the second => Pointwise
 pub fn round() -> impl Function {
     Pointwise::bivariate(
         (data_type::Float::default(), data_type::Integer::default()),
         data_type::Float::default(),
-        |a, b| {
-            let multiplier = 10.0_f64.powi(b as i32);
-            (a * multiplier).round() / multiplier
-        },
+        |a, b| at_decimal_place(a, b, f64::round),
     )
 }
 
@@ -2402,10 +2414,7 @@ pub fn trunc() -> impl Function {
     Pointwise::bivariate(
         (data_type::Float::default(), data_type::Integer::default()),
         data_type::Float::default(),
-        |a, b| {
-            let multiplier = 10.0_f64.powi(b as i32);
-            (a * multiplier).trunc() / multiplier
-        },
+        |a, b| at_decimal_place(a, b, f64::trunc),
     )
 }
 
